@@ -3,9 +3,15 @@
 package c19
 
 import (
+	"bytes"
+	"context"
 	"math/rand"
 	"sync"
+	"time"
 
+	"github.com/plgd-dev/go-coap/v3/message"
+	"github.com/plgd-dev/go-coap/v3/message/codes"
+	"github.com/plgd-dev/go-coap/v3/message/pool"
 	"github.com/plgd-dev/go-coap/v3/net/blockwise"
 
 	"verifharness/internal/rec"
@@ -147,6 +153,14 @@ func Run(out string) {
 	for s := 0; s <= 7; s++ {
 		w.Put(map[string]any{"op": "size", "s": s, "size": blockwise.SZX(s).Size()})
 	}
+	// BERT buffer sizing (bufferSize is not exported: observed through the first block BlockWise.Do cuts from a large body): "blocks
+	// are whole multiples of 1024 bounded by the maximum message size"; for the other exponents the first block is Size(s)
+	for _, mms := range []int{1024, 1025, 1152, 1500, 2047, 2048, 2049, 2500, 4096, 5000, 65535, 65536} {
+		w.Put(map[string]any{"op": "bertbuf", "s": 7, "mms": mms, "first": firstBlockLen(7, mms)})
+	}
+	for s := 0; s < 7; s++ {
+		w.Put(map[string]any{"op": "bertbuf", "s": s, "mms": 1152, "first": firstBlockLen(s, 1152)})
+	}
 
 	// (ii) digests over the COMPLETE domain, one per chunk; TLC recomputes each from Dec/Enc
 	const chunk = 4096
@@ -257,4 +271,33 @@ func Explicit(out, op string, lo, n, s int, m bool) {
 			w.Put(enc(s, int64(lo+j), m))
 		}
 	}
+}
+
+type bwCC struct{ p *pool.Pool }
+
+func (c *bwCC) AcquireMessage(ctx context.Context) *pool.Message { return c.p.AcquireMessage(ctx) }
+func (c *bwCC) ReleaseMessage(m *pool.Message)                   { c.p.ReleaseMessage(m) }
+
+// firstBlockLen: payload length of the first Block1 request BlockWise.Do sends for a body of 200 000 bytes with the given
+// exponent and maximum message size (-1: nothing was sent).
+func firstBlockLen(szx, mms int) int {
+	cc := &bwCC{p: pool.New(8, 2048)}
+	bw := blockwise.New(cc, time.Second, func(error) {}, nil)
+	ctx, cancel := context.WithCancel(context.Background())
+	defer cancel()
+	req := cc.AcquireMessage(ctx)
+	req.SetCode(codes.POST)
+	req.SetToken([]byte{0x19, byte(szx)})
+	req.MustSetPath("/b")
+	req.SetContentFormat(message.AppOctets)
+	req.SetBody(bytes.NewReader(make([]byte, 200000)))
+	first := -1
+	_, _ = bw.Do(req, blockwise.SZX(szx), uint32(mms), func(r *pool.Message) (*pool.Message, error) {
+		if first < 0 {
+			b, _ := r.ReadBody()
+			first = len(b)
+		}
+		return nil, context.Canceled // one block is all we want to see
+	})
+	return first
 }
